@@ -47,6 +47,8 @@ impl InboundRequestHandler {
         let mut inflight_requests = tokio::task::JoinSet::new();
 
         let close_reason = loop {
+            #[cfg(bmwill_anemo_verif)]
+            crate::verif::point_ctx("rh.loop", None, Some(self.connection.peer_id()), None);
             tokio::select! {
                 // anemo does not currently use uni streams so we can
                 // just ignore and drop the stream
@@ -104,6 +106,8 @@ impl InboundRequestHandler {
             }
         };
 
+        #[cfg(bmwill_anemo_verif)]
+        crate::verif::point_ctx("rh.exit", None, Some(self.connection.peer_id()), None);
         self.active_peers.remove_with_stable_id(
             self.connection.peer_id(),
             self.connection.stable_id(),
@@ -111,6 +115,8 @@ impl InboundRequestHandler {
         );
 
         inflight_requests.shutdown().await;
+        #[cfg(bmwill_anemo_verif)]
+        crate::verif::point_ctx("rh.end", None, Some(self.connection.peer_id()), None);
 
         debug!(peer =% self.connection.peer_id(), "InboundRequestHandler ended");
     }
